@@ -212,6 +212,21 @@ func RandNet(r *Rand, n int, timeoutMs int64, faults bool) *plan.NetPlan {
 		np.RedirLoop = true
 	}
 	np.Body = RandReader(r, n, r.P(1, 3), true)
+	if r.P(1, 4) {
+		// declared Content-Length: honest, short, long, absurd
+		v := int64(n)
+		switch r.Intn(6) {
+		case 0:
+			v = int64(n / 2)
+		case 1:
+			v = int64(n + 1 + r.Intn(1000))
+		case 2:
+			v = 1<<63 - 1
+		case 3:
+			v = 0
+		}
+		np.CLen = &v
+	}
 	if r.P(1, 3) && n > 0 {
 		np.StallAt = biasedOffset(r, n)
 		np.StallUs = around()
@@ -297,6 +312,11 @@ func RandChildOrder(r *Rand) string {
 // RandDoc draws a document of a random class.
 func RandDoc(r *Rand) GenDoc {
 	seed := r.U64()
+	if r.P(1, 8) {
+		if d, ok := HarvestedDoc(r); ok {
+			return d
+		}
+	}
 	switch x := r.Intn(20); {
 	case x < 13:
 		return Document(seed)
